@@ -422,7 +422,48 @@ def compose_layer(idx: int, r: random.Random, n_msgs: int, depth: int) -> J:
         else:
             for i in range(n):
                 last = i == n - 1
-                params.append(rand_param(f"p{i}", depth, last, top=True))
+                y = r.random()
+                if y < 0.07:
+                    # length key + PARAM-LENGTH-INFO user (key listed first)
+                    kid = f"LK.m{idx}_{m}.lk{i}"
+                    base = r.choice(["A_BYTEFIELD", "A_UINT32", "A_ASCIISTRING"])
+                    pl = fresh("pl")
+                    dobjs.append(dop(pl, dct_paramlen(base, kid)))
+                    params.append({"p": "LENGTH-KEY", "name": f"lk{i}", "byte": None, "bit": None,
+                                   "dop": r.choice(["u8", "u16"]), "id": kid})
+                    params.append(p_value(f"p{i}", pl))
+                elif y < 0.14:
+                    # table key + table struct
+                    tn = fresh("tab")
+                    rows = []
+                    for k in range(r.randrange(1, 4)):
+                        if r.random() < 0.6:
+                            rows.append({"name": f"row{k}", "key": k * 3 + 1,
+                                         "struct": rand_struct(max(0, depth - 1), False)})
+                        else:
+                            rows.append({"name": f"row{k}", "key": k * 3 + 1,
+                                         "dop": r.choice(FIXED_SIMPLE[:6])})
+                    dobjs.append({"t": "TABLE", "name": tn, "key_dop": "u8", "semantic": "S",
+                                  "rows": rows})
+                    params.append({"p": "TABLE-KEY", "name": f"tk{i}", "byte": None, "bit": None,
+                                   "table": tn})
+                    params.append({"p": "TABLE-STRUCT", "name": f"p{i}", "byte": None, "bit": None,
+                                   "key": f"tk{i}"})
+                elif y < 0.18 and not any(p["name"] == "code" for p in params):
+                    # DTC + environment data description
+                    eda, ed1 = fresh("eda"), fresh("ed")
+                    dobjs.append({"t": "ENVDATA", "name": eda, "params": [p_value("common", "u8")],
+                                  "dtcs": None})
+                    dobjs.append({"t": "ENVDATA", "name": ed1,
+                                  "params": [p_value("e1", r.choice(["u16", "s8", "b2"]))],
+                                  "dtcs": [0x012345]})
+                    edd = fresh("edd")
+                    dobjs.append({"t": "ENVDESC", "name": edd, "param_snref": "code",
+                                  "envdatas": [eda, ed1]})
+                    params.append(p_value("code", "dtc"))
+                    params.append(p_value(f"p{i}", edd))
+                else:
+                    params.append(rand_param(f"p{i}", depth, last, top=True))
             if style == "explicit" and all(_fixed(p, by()) for p in params):
                 # assign explicit positions in listing order, then shuffle the listing
                 cur = 0
